@@ -34,8 +34,14 @@ func (e c20ev) line(ty int) string {
 		return fmt.Sprintf("ann %d %d %d", ty, e.P, e.H)
 	case "arr", "exp", "fgt":
 		return fmt.Sprintf("%s %d %d", e.K, ty, e.H)
+	case "annq":
+		return fmt.Sprintf("annq %d %d %d", ty, e.P, e.H)
 	case "tick":
 		return fmt.Sprintf("tick %d", e.T)
+	case "drainq":
+		return "drainq"
+	case "loopstall":
+		return fmt.Sprintf("loop %d", ty) // same event for the model: its queue is unbounded, a blocking send loses nothing
 	}
 	return fmt.Sprintf("%s %d", e.K, ty)
 }
@@ -44,6 +50,11 @@ type c20case struct {
 	Delay int64 `json:"delay"` // pullDelay, ms
 	Cap   int   `json:"cap"`   // 0: the DefaultHolder's own MaxParallelPulls (3); >0: override (TxPool/KeysPool use 1)
 	Light bool  `json:"light,omitempty"`
+	// burst scenarios (full bounded queues), checked at the end of the run:
+	//  "fallback-all": every queued announcement was requested exactly once (C20:fallback-pull-lost-on-full-queue)
+	//  "served-within-delay": every announcement answered by no immediate pull is requested within pullDelay
+	//                         (C20:item-stuck-without-active-pull)
+	Expect string `json:"expect,omitempty"`
 	// several entry types, each with its own holder + tracker, on one manager (all registered before Run);
 	// empty: one lane of type 4 (pushFlip) with Delay/Cap above
 	Lanes []c20lane `json:"lanes,omitempty"`
@@ -65,6 +76,7 @@ type c20result struct {
 	outs    int
 	maxPend int
 	hits    map[string]int
+	stalls  int
 }
 
 func fmtOuts(out []c20out) string {
@@ -100,6 +112,12 @@ func c20run(cs *c20case, next func(r *rig) []c20ev) (res c20result, err error) {
 			res.fail = f
 		}
 	}
+	type annRec struct {
+		l, p, h int
+		t       int64
+	}
+	queued, issued := map[ph]int{}, map[ph]int{} // (single-lane burst scenarios) announcements not answered at once / deferred requests
+	var annAt, issuedAt []annRec
 	// do runs one concrete event; false = the rig is broken, stop
 	do := func(i int, e c20ev) bool {
 		if e.L < 0 || e.L >= len(r.lanes) {
@@ -128,8 +146,28 @@ func c20run(cs *c20case, next func(r *rig) []c20ev) (res c20result, err error) {
 			res.lines = append(res.lines, [2]string{ln, "panic"})
 			return false
 		}
+		switch e.K {
+		case "ann":
+			if len(out) == 0 {
+				queued[ph{e.P, e.H}]++
+				annAt = append(annAt, annRec{e.L, e.P, e.H, r.now()})
+			}
+		case "loop", "loopstall":
+			for _, o := range out {
+				issued[ph{o.P, o.H}]++
+				issuedAt = append(issuedAt, annRec{e.L, o.P, o.H, o.T})
+			}
+		}
 		if e.K == "tick" {
 			res.lines = append(res.lines, [2]string{ln, "-"})
+		} else if e.K == "annq" {
+			res.lines = append(res.lines, [2]string{ln, fmt.Sprintf("M=%d | %s", r.mgr.VerifQueued(), r.sizes(l))})
+		} else if e.K == "drainq" {
+			var sb []string
+			for _, o := range out {
+				sb = append(sb, fmt.Sprintf("req:%d:%d:%d", o.Ty, o.P, o.H))
+			}
+			res.lines = append(res.lines, [2]string{ln, fmt.Sprintf("n=%d %s", len(out), strings.Join(sb, " "))})
 		} else {
 			res.lines = append(res.lines, [2]string{ln, fmtOuts(out) + " | " + r.sizes(l)})
 		}
@@ -179,6 +217,16 @@ func c20run(cs *c20case, next func(r *rig) []c20ev) (res c20result, err error) {
 			if !ok {
 				break
 			}
+		} else if e.K == "fillh" || e.K == "fillhq" { // T announcements by peer P of hashes H, H+1, … (q: consumer stalled)
+			ok := true
+			for k := int64(0); k < e.T && ok; k++ {
+				ok = do(i, c20ev{K: map[string]string{"fillh": "ann", "fillhq": "annq"}[e.K], L: e.L, P: e.P, H: e.H + int(k)})
+			}
+			if !ok {
+				break
+			}
+		} else if e.K == "mqcap" { // tells the model driver the capacity of the manager's queue
+			res.lines = append(res.lines, [2]string{fmt.Sprintf("mqcap %d", r.mgr.VerifQueueCap()), "ok"})
 		} else if e.K == "drain" {
 			rounds := 3*busy() + 8
 			for busy() > 0 {
@@ -208,6 +256,33 @@ func c20run(cs *c20case, next func(r *rig) []c20ev) (res c20result, err error) {
 			cs.Ev = append(cs.Ev, next(r)...)
 		}
 	}
+	res.stalls = r.stalls
+	switch cs.Expect {
+	case "fallback-all":
+		for k, n := range queued {
+			if issued[k] == 0 {
+				setFail(&c20fail{"C20:fallback-pull-lost-on-full-queue", fmt.Sprintf("peer %d's announcement of hash %d was queued (the first announcer was asked and did not deliver), its pull delay passed while the consumer of the tracker's request channel was stalled (%d times the loop met the full channel), the consumer then took everything: that peer was never asked (%d of %d queued announcers asked)", k.p, k.h, r.stalls, len(issued), len(queued))})
+				break
+			}
+			if issued[k] > n {
+				setFail(&c20fail{"C20:duplicate-deferred-request", fmt.Sprintf("peer %d asked %d times for hash %d, announced %d times", k.p, issued[k], k.h, n)})
+				break
+			}
+		}
+	case "served-within-delay":
+		for _, a := range annAt {
+			ok := false
+			for _, d := range issuedAt {
+				if d.l == a.l && d.p == a.p && d.h == a.h && d.t <= a.t+r.lanes[a.l].delay {
+					ok = true
+				}
+			}
+			if !ok {
+				setFail(&c20fail{"C20:item-stuck-without-active-pull", fmt.Sprintf("hash %d: the pulls to its first announcers were skipped because the manager's request queue was full; after the queue was drained peer %d announced it at t=%d ms and was neither asked at once nor within pullDelay (%d ms): the item has an announcement counter at the cap but no registered pull", a.h, a.p, a.t, r.lanes[a.l].delay)})
+				break
+			}
+		}
+	}
 	return res, nil
 }
 
@@ -225,7 +300,7 @@ func c20shrink(cs c20case, sig string) c20case {
 		changed = false
 		for chunk := len(cs.Ev) / 2; chunk >= 1; chunk /= 2 {
 			for i := 0; i+chunk <= len(cs.Ev); {
-				t := c20case{Delay: cs.Delay, Cap: cs.Cap, Light: cs.Light, Lanes: cs.Lanes}
+				t := c20case{Delay: cs.Delay, Cap: cs.Cap, Light: cs.Light, Lanes: cs.Lanes, Expect: cs.Expect}
 				t.Ev = append(append([]c20ev{}, cs.Ev[:i]...), cs.Ev[i+chunk:]...)
 				if fails(t) {
 					cs, changed = t, true
@@ -236,7 +311,7 @@ func c20shrink(cs c20case, sig string) c20case {
 		}
 		for i := range cs.Ev { // shorten fills
 			for cs.Ev[i].K == "fill" && cs.Ev[i].T > 1 {
-				t := c20case{Delay: cs.Delay, Cap: cs.Cap, Light: cs.Light, Lanes: cs.Lanes, Ev: append([]c20ev{}, cs.Ev...)}
+				t := c20case{Delay: cs.Delay, Cap: cs.Cap, Light: cs.Light, Lanes: cs.Lanes, Expect: cs.Expect, Ev: append([]c20ev{}, cs.Ev...)}
 				t.Ev[i].T = cs.Ev[i].T - (cs.Ev[i].T+9)/10
 				if !fails(t) {
 					break
@@ -264,7 +339,10 @@ func c20emit(c *hx.Ctx, cs c20case, res c20result) {
 			c.Hit(k)
 		}
 	}
-	if res.fail != nil {
+	if res.fail != nil && cs.Expect != "" {
+		// a burst scenario is its own minimal input: its expectation only makes sense on the complete script
+		c.Fail(res.fail.Sig, res.fail.Detail, cs)
+	} else if res.fail != nil {
 		small := c20shrink(cs, res.fail.Sig)
 		r2, err := c20run(&small, nil)
 		detail := res.fail.Detail
@@ -402,6 +480,28 @@ func c20bound() c20case {
 	return cs
 }
 
+// c20burstTracker: n distinct items, each announced by two peers (MaxParallelPulls 1: the second is queued), the first
+// pulls go out and nothing arrives; all fall-back delays become due while the consumer of tracker.Requests() (capacity
+// 1000) is stalled; then it resumes. Every second announcer must have been asked exactly once.
+func c20burstTracker(n int) c20case {
+	return c20case{Delay: 500, Cap: 1, Light: true, Expect: "fallback-all", Ev: []c20ev{
+		{K: "fillh", P: 1, H: 1, T: int64(n)}, {K: "tick", T: 5}, {K: "fillh", P: 2, H: 1, T: int64(n)},
+		{K: "tick", T: 10}, {K: "loop"}, {K: "tick", T: 600}, {K: "loopstall"}, {K: "state"}, {K: "drain"}, {K: "state"}}}
+}
+
+// c20burstManager: a burst of first announcements fills the manager's request queue (5000) before its consumer runs;
+// `items` further hashes are announced by their first MaxParallelPulls-1 = 2 peers inside that window (their pulls are
+// skipped); the consumer then drains the queue, a third peer announces each item, the pull delay passes.
+func c20burstManager(queueCap, items int) c20case {
+	cs := c20case{Delay: 500, Cap: 3, Light: true, Expect: "served-within-delay"}
+	first := 1000000
+	cs.Ev = []c20ev{{K: "mqcap"}, {K: "fillhq", P: 1, H: 1, T: int64(queueCap)},
+		{K: "fillhq", P: 1, H: first, T: int64(items)}, {K: "fillhq", P: 2, H: first, T: int64(items)}, {K: "drainq"},
+		{K: "tick", T: 100}, {K: "fillh", P: 3, H: first, T: int64(items)}, {K: "state"},
+		{K: "tick", T: 500}, {K: "loop"}, {K: "loop"}, {K: "tick", T: 600}, {K: "loop"}, {K: "drain"}, {K: "state"}}
+	return cs
+}
+
 func init() {
 	hx.Register("C20", func(c *hx.Ctx) error {
 		if c.Replay != "" {
@@ -475,6 +575,19 @@ func init() {
 		c.Hit(fmt.Sprintf("bound:maxPending=%d", res.maxPend))
 		if res.maxPend != pushpull.VerifMaxPendingPushes+1 {
 			c.Fail("C20:bound-not-reached", fmt.Sprintf("overfill trace reached %d pending pushes, expected maxPendingPushes+1", res.maxPend), nil)
+		}
+		// full bounded queues
+		for _, b := range []c20case{c20burstTracker(1300), c20burstManager(5000, 40)} {
+			res, err := c20run(&b, nil)
+			if err != nil {
+				return err
+			}
+			c20emit(c, b, res)
+			c.Rep.Evaluations++
+			c.Hit(fmt.Sprintf("burst:%s loop-met-full-channel=%d", b.Expect, res.stalls))
+			if b.Expect == "fallback-all" && res.stalls == 0 && res.fail == nil {
+				c.Fail("C20:burst-not-reached", "the tracker burst did not fill the tracker's request channel", nil)
+			}
 		}
 		if c.Tier == "thorough" {
 			c20observe(c, 3)
